@@ -133,7 +133,8 @@ PROPS["C10"] = {
     "rule": "cases = (history of 0..4 (thorough ..6) encode calls incl. empty batches, zero-length-payload packets and calls ended part-way by the caller's iterator throwing; one case in twelve starts with 65515..65536 frames so that the final batch straddles the counter wrap; half of the cases encode every call from one pool of Packet objects refilled in place; a quarter run the history calls under other device / stream ids set through the setters (both, only the stream id, only the device id); final batch + context), final batch biased to "
             "continue the history's last message type and to need segmentation; non-trivial when the history is non-empty and the "
             "final batch segments or mixes message types; distinct = distinct serialized cases"
-            " One case in twelve repeats the last history call 125..129 or 253..257 times and continues with the first call's message type under another frame size. A coverage-guided stage (libFuzzer on the binary image of the same case struct) explores the same space.",
+            " One case in twelve repeats the last history call 125..129 or 253..257 times and continues with the first call's message type under another frame size. A coverage-guided stage (libFuzzer on the binary image of the same case struct) explores the same space."
+            " The id modes also include: ids changed (both setters) only right before the call under test, and restart() right before it; an exception from the call under test is a failure.",
     "assumptions": COMMON_ASSUMPTIONS + ["differential oracle: the library on a fresh object is the reference, as the property states"],
     "level_text": "Metamorphic search: frames of the n-th call must equal a fresh encoder's frames byte for byte outside the "
                   "sequence counter, with a constant counter offset.",
@@ -154,7 +155,8 @@ PROPS["C05"] = {
             "0..2 bytes) merged by a generated schedule; one case in ten has an idle gap of 17..5000 frames of a foreign endpoint inside the first open message; a coverage-guided stage (libFuzzer on the binary image of the same case struct, structural mutator, normalised into this domain) explores the same space from the saved replays, generated samples and an empty corpus; non-trivial when a segmented message is delivered AND the history has a context switch to "
             "another endpoint inside an open message, a counter wrap inside a message, trailing bytes, or a zero-length segment; "
             "distinct = distinct serialized cases"
-            " One case in twenty runs on a long-lived decoder that has already delivered 1 / 2 / 4 MiB of segmented traffic.",
+            " One case in twenty runs on a long-lived decoder that has already delivered 1 / 2 / 4 MiB of segmented traffic."
+            " In one case in six the decoder is copied after some frame and the copy receives every later frame too; it must deliver what the reference model says.",
     "assumptions": COMMON_ASSUMPTIONS + ["expected deliveries are derived twice (from the script and from the byte-level reference "
                                          "reassembler); a disagreement between the two aborts as HARNESS-ERROR"],
     "level_text": "Model-based generated-input search: after every decode call the delivered packets must equal the reference "
@@ -290,7 +292,8 @@ PROPS["C15"] = {
             "(0..40 entries) in consistent form and with inner length beyond the buffer, cut at every offset, payload length 0 / too "
             "large; non-trivial = a MUST case with data length > 0 or >= 1 status packet, or a NONE case of an unsupported kind / not "
             "fitting inner length with a non-empty payload; distinct = distinct serialized frames"
-            " One bus-status message in six has an entry that repeats the interface id (and messages total, and all fields) of the entry before it. A coverage-guided stage (libFuzzer on the binary image of the frame history; the reference parse judges the built bytes) explores the same space.",
+            " One bus-status message in six has an entry that repeats the interface id (and messages total, and all fields) of the entry before it. A coverage-guided stage (libFuzzer on the binary image of the frame history; the reference parse judges the built bytes) explores the same space."
+            " Every frame of a case is also decoded by one decoder object shared by the whole case, whose packets must equal a fresh decoder's; a quarter of the later frames carry the device id and counter of the frame before them.",
     "assumptions": COMMON_ASSUMPTIONS + ["EITHER (not asserted): status messages with a non-zero data type field, inner lengths that fit the buffer "
                                          "but not the declared payload length, arbitration id words with bits 29/30 set, complete bus entries after "
                                          "the declared payload length",
@@ -342,7 +345,8 @@ PROPS["C11"] = {
             "sequence of 1..16 (thorough ..40) in-range writes incl. the TECMP group setters of 0..12 raw bytes and Packet::setPayload with any known type x arbitrary bytes x length 0..79 and setData of CAN / CAN-FD / LIN / Ethernet with its effects on the length and DLC fields, and setData of the capture-module / interface variable part; half of the prior images of classes with a data length carry a length that agrees with the data area) and, exhaustively, every in-range value of every field <= 16 bits on the "
             "three backgrounds with boolean flags set and cleared in both orders; non-trivial when a write on a non-zero background "
             "changes the value; distinct = distinct serialized cases (an exhaustive sweep case covers up to 65536 writes, counted in "
-            "counters.writes)",
+            "counters.writes)"
+            " One data write in eight happens while the payload's own type field holds the invalid constant (restored afterwards).",
     "assumptions": COMMON_ASSUMPTIONS + ["the model is initialised from the getters of the prior state; fields viewing the same bytes (flag word / "
                                          "single flags, interface id / vendor id, CAN id and CRC words, payload type parts) are modelled as views of one cell",
                                          "in-range = the field's bit width (CAN id 29 bits, CAN CRC 15, CAN-FD CRC 21, SBC 3, LIN id 6, parity 2) or its enumerators"],
@@ -411,7 +415,8 @@ PROPS["C14"] = {
             "copy-assign / move-construct / move-assign incl. self-assignment and self-move-assignment), followed by mutation of either "
             "side (for half of the packet copies: first of all through a writable payload reference obtained before the copy was made) and destruction of the source; non-trivial when the target already held a payload, a length is zero, the source has no "
             "payload, or the pair is equal-looking; distinct = distinct serialized cases"
-            " For the capture-module and interface payload classes a compared object is rewritten through setData (other content of the same lengths, then the original content) and compared again.",
+            " For the capture-module and interface payload classes a compared object is rewritten through setData (other content of the same lengths, then the original content) and compared again."
+            " A packet is also handed its own payload (setPayload(p.getPayload())) and must stay unchanged.",
     "assumptions": COMMON_ASSUMPTIONS + ["moved-from state is not asserted (only that it can be destroyed)",
                                          "packet equality is compared with field-by-field comparison only when both payloads are non-empty, as the statement says"],
     "level_text": "Generated and exhaustively enumerated pairs: the result's snapshot (all header getters, segment type, counter, payload "
@@ -453,7 +458,8 @@ PROPS["C19"] = {
             "operation sequences, payload-builder sequences, codec round trips), each run 1..3 times by its own thread on its own objects "
             "after a common start barrier, in a TSan build and in an ASan build; non-trivial when >= 2 threads execute the same library "
             "component; distinct = distinct serialized cases"
-            " A third of the cases copy-construct each thread's encoder / decoder / status tracker from prototypes with a history built on the main thread (a copy is a separate instance).",
+            " A third of the cases copy-construct each thread's encoder / decoder / status tracker from prototypes with a history built on the main thread (a copy is a separate instance)."
+            " A quarter of the decoder workloads keep 60..1030 messages in progress at once.",
     "assumptions": COMMON_ASSUMPTIONS + ["the harness does not own the scheduler: schedules are sampled, not enumerated; ThreadSanitizer's happens-before "
                                          "analysis reports an unsynchronised access to shared mutable state whenever both accesses execute in the run, "
                                          "largely independent of the actual interleaving",
